@@ -14,7 +14,7 @@
    regexp/syntax run by the harness on each specifier part: its top-level alternatives); the
    theorems hold for every oracle.  [lang]/[full_lang]/[search_lang] are the semantics of the
    expressions (Lib/RegexM.v), [search] is regexp.MatchString. *)
-From Verif Require Import Lib.Base Lib.RegexM Model.C13_Accounts Proofs.C13 Proofs.C13_Store Proofs.C13_Match.
+From Verif Require Import Lib.Base Lib.RegexM Model.C13_Accounts Proofs.C13 Proofs.C13_Store Proofs.C13_Match Proofs.C13_Partial.
 From Verif Require Import Check.C13 Proofs.C13_Check.
 From Coq Require Import String.
 Open Scope N_scope.
@@ -108,8 +108,8 @@ Print Assumptions C13_keyed_by_index.
 Theorem C13_answer_is_a_map :
   forall parse (cfg : config) (ops : list op) (sync : bool) (e : N) (idx : option (list N)),
     NoDup (map a_id (c_universe cfg)) ->
-    (forall offered l, In (Refresh offered (VOk l)) ops ->
-       forall v1 v2, In v1 l -> In v2 l -> v_index v1 = v_index v2 -> v_pk v1 = v_pk v2) ->
+    (forall offered vo, In (Refresh offered vo) ops ->
+       forall v1 v2, In v1 (vout_vals vo) -> In v2 (vout_vals vo) -> v_index v1 = v_index v2 -> v_pk v1 = v_pk v2) ->
     NoDup (map fst (query cfg (run_state parse cfg init ops) sync e idx)).
 Proof. exact history_query_keys_nodup. Qed.
 Print Assumptions C13_answer_is_a_map.
@@ -121,8 +121,8 @@ Print Assumptions C13_answer_is_a_map.
 Theorem C13_validating_exactly :
   forall parse (cfg : config) (ops : list op) (e : N) (idx : option (list N)) (i pk : N),
     e < c_far cfg ->
-    (forall offered l, In (Refresh offered (VOk l)) ops ->
-       Forall (fun v => v_slashed v = true -> v_exit v <> c_far cfg) l) ->
+    (forall offered vo, In (Refresh offered vo) ops ->
+       Forall (fun v => v_slashed v = true -> v_exit v <> c_far cfg) (vout_vals vo)) ->
     let s := run_state parse cfg init ops in
     (In (i, pk) (query cfg s false e idx) <->
      In pk (st_accounts s) /\
@@ -186,13 +186,13 @@ Print Assumptions C13_outputs_follow_states.
 Theorem C13_retain_on_empty :
   forall parse (cfg : config) (s : state) (offered : list N) (vo : vout),
     (c_mgr cfg = Dirk -> admitted parse cfg offered = [] ->
-     match vo with VErr => True | VOk l => node_answer l (st_accounts s) = [] end ->
+     match node_reply vo (st_accounts s) with None => True | Some got => got = [] end ->
      refresh parse cfg s offered vo = s)
     /\ (c_mgr cfg = Dirk -> admitted parse cfg offered = [] ->
         st_accounts (refresh parse cfg s offered vo) = st_accounts s)
-    /\ (match vo with
-        | VErr => True
-        | VOk l => node_answer l (refresh_accounts parse cfg (st_accounts s) offered) = []
+    /\ (match node_reply vo (refresh_accounts parse cfg (st_accounts s) offered) with
+        | None => True
+        | Some got => got = []
         end -> st_vals (refresh parse cfg s offered vo) = st_vals s).
 Proof.
   intros parse cfg s offered vo. split; [|split].
@@ -394,6 +394,60 @@ Qed.
 Print Assumptions C13_enclosed_whenever_bar.
 
 (* ------------------------------------------------------------------------------------------- *)
+(* Partial failures.  The validators manager makes ONE request for all the accounts' keys.  When
+   the node fails every request that names some key pk (a time-out, a rejection caused by what
+   the request contains) and pk is among the keys asked for, the refresh obtains nothing and the
+   validator store is exactly what it was -- whatever the node would have answered about the
+   other keys; when pk is not asked for, the refresh is the healthy one. *)
+Theorem C13_partial_failure_keeps_everything :
+  forall parse (cfg : config) (s : state) (offered : list N) (pk : N) (l : list val),
+    (In pk (refresh_accounts parse cfg (st_accounts s) offered) ->
+     st_vals (refresh parse cfg s offered (VFailOn pk l)) = st_vals s)
+    /\ (~ In pk (refresh_accounts parse cfg (st_accounts s) offered) ->
+        refresh parse cfg s offered (VFailOn pk l) = refresh parse cfg s offered (VOk l)).
+Proof.
+  intros parse cfg s offered pk l. split.
+  - exact (fail_on_known_key_keeps_validators parse cfg s offered pk l).
+  - exact (fail_on_other_key_is_healthy parse cfg s offered pk l).
+Qed.
+Print Assumptions C13_partial_failure_keeps_everything.
+
+(* Every node behaviour, one refresh: a validator that was known is lost only if the node answered
+   the request for the accounts' keys, its answer was not empty, and the validator was not in it
+   (the store is then that answer).  No failure, total or partial, loses a known validator. *)
+Theorem C13_known_validator_lost_only_by_answer :
+  forall parse (cfg : config) (s : state) (offered : list N) (vo : vout) (pk : N) (v : val),
+    find_val (st_vals s) pk = Some v ->
+    find_val (st_vals (refresh parse cfg s offered vo)) pk = None ->
+    exists got, node_reply vo (refresh_accounts parse cfg (st_accounts s) offered) = Some got /\
+                got <> [] /\ find_val got pk = None /\ st_vals (refresh parse cfg s offered vo) = got.
+Proof. exact known_validator_lost_only_by_answer. Qed.
+Print Assumptions C13_known_validator_lost_only_by_answer.
+
+(* Why one request (or all-or-nothing): a refresh that asks in batches, skips a failed batch and
+   REPLACES the maps by what the other batches returned ([refresh_validators_batched],
+   Proofs/C13_Partial.v -- not the code) loses the known validators of the failed batch, where the
+   code keeps them; and with no more keys than the batch size it cannot be told from the code,
+   which is why only installations above the batch size show the difference. *)
+Theorem C13_batched_replace_refuted :
+  exists (size : nat) (old : list val) (pubkeys : list N) (vo : vout) (pk : N) (v : val),
+    find_val old pk = Some v
+    /\ find_val (refresh_validators old pubkeys vo) pk = Some v
+    /\ find_val (refresh_validators_batched size old pubkeys vo) pk = None.
+Proof.
+  exists 2%nat, [ex_v 1; ex_v 2; ex_v 3], [1; 2; 3], (VFailOn 3 [ex_v 1; ex_v 2; ex_v 3]), 3, (ex_v 3).
+  destruct batched_replace_wipes as (H1 & H2 & H3 & _). auto.
+Qed.
+Print Assumptions C13_batched_replace_refuted.
+
+Theorem C13_batching_invisible_below_batch_size :
+  forall (size : nat) (old : list val) (pubkeys : list N) (vo : vout),
+    (List.length pubkeys <= size)%nat ->
+    refresh_validators_batched size old pubkeys vo = refresh_validators old pubkeys vo.
+Proof. exact batched_with_one_batch_is_the_code. Qed.
+Print Assumptions C13_batching_invisible_below_batch_size.
+
+(* ------------------------------------------------------------------------------------------- *)
 (* What the check's predicate establishes about an OBSERVED history (the model is not involved):
    P_b true means -- unless the wallet manager's constructor failed on a failing first validator
    refresh -- that from the empty service every observed refresh result and every observed answer
@@ -409,11 +463,21 @@ Print Assumptions C13_enclosed_whenever_bar.
 Theorem C13_P_b_sound :
   forall c : case,
     P_b c = true ->
-    (exists offered ops', c_mgr (c_cfg c) = Wallet /\ c_ops c = Refresh offered VErr :: ops' /\
-                          exists rest, c_outs c = OCtorErr :: rest)
+    (exists offered vo ops', c_mgr (c_cfg c) = Wallet /\ c_ops c = Refresh offered vo :: ops' /\
+                             node_may_fail (lookup_parse (c_parse c)) (c_cfg c) offered vo /\
+                             exists rest, c_outs c = OCtorErr :: rest)
     \/ holds (lookup_parse (c_parse c)) (c_cfg c) [] [] (c_ops c) (c_outs c).
 Proof. exact P_b_sound. Qed.
 Print Assumptions C13_P_b_sound.
+
+(* The validator store against which [holds] (hence P_b) judges the answers that follow a refresh
+   during which the node failed the requests naming a key of a known account is the store of
+   before: after such a refresh every validator known before must still be answered for. *)
+Theorem C13_P_b_partial_failure_keeps_store :
+  forall (cfg : config) (vals : list val) (known : list N) (pk : N) (l : list val),
+    In pk known -> next_vals cfg vals known (VFailOn pk l) = vals.
+Proof. exact next_vals_fail_on. Qed.
+Print Assumptions C13_P_b_partial_failure_keeps_store.
 
 (* ... and what `agree` establishes: on a case where it is true the observed outputs are the
    model's, so the theorems about [run] / [run_state] speak about what the implementation did. *)
@@ -483,6 +547,20 @@ Example C13_example_history :
   run ex_oracle (ex_cfg Dirk) ops =
   [OProbe [1; 2]; OQuery [(70, 1)]; OQuery [(70, 1); (71, 2)]; OProbe [1; 2]; OQuery [(70, 1)];
    OProbe [1; 2]; OQuery [(70, 1); (71, 2)]; OQuery []; OQuery [(71, 2)]].
+Proof. vm_compute. reflexivity. Qed.
+
+(* a partial failure: everything known; then the node fails every request naming account 2's key
+   while it would report accounts 1 and 3 as exited -- the answers stay what they were; once
+   account 2 is no longer offered the same node is healthy and its news arrive *)
+Example C13_example_partial_failure :
+  let moved := [ex_val 1 70 5 8 false; ex_val 2 71 5 20 true; ex_val 3 72 5 8 false] in
+  let ops := [Refresh [1; 2; 3; 4] (VOk ex_vals); Query false 10 None;
+              Refresh [1; 2; 3; 4] (VFailOn 2 moved); Query false 10 None; Query true 10 None;
+              Refresh [1; 3; 4] (VFailOn 2 moved); Query false 10 None; Query true 10 None] in
+  run ex_oracle (ex_cfg Wallet) ops =
+  [OProbe [1; 2]; OQuery [(70, 1)];
+   OProbe [1; 2]; OQuery [(70, 1)]; OQuery [(70, 1); (71, 2)];
+   OProbe [1]; OQuery []; OQuery [(70, 1)]].
 Proof. vm_compute. reflexivity. Qed.
 
 Example C13_example_states :
